@@ -547,6 +547,27 @@ pub fn tampers(spec: &Spec, rng: &mut Rng, all_bits: bool, out: &mut Vec<Input>)
         let mut s = spec.clone();
         s.items.push((rlp_bytes(b"zzzz"), rlp_bytes(b"x")));
         out.push(inp("t-add-pair", "reject", s.encode_with_sig(&sig_item), kind));
+        // a repeated key, the signature still the one over the record without the repetition (a
+        // decoder that lets the later or the earlier pair win rebuilds exactly the signed content)
+        for i in 0..spec.items.len() {
+            let (k, v) = spec.items[i].clone();
+            let mut alt = v.clone();
+            if let Some(l) = alt.last_mut() {
+                *l = l.wrapping_add(1);
+            }
+            for (tag, pos, val) in [
+                ("t-repeated-pair-identical", i, v.clone()),
+                ("t-repeated-key-before", i, alt.clone()),
+                ("t-repeated-key-after", i + 1, alt.clone()),
+            ] {
+                if rng.chance(1, 2) && tag != "t-repeated-pair-identical" {
+                    continue;
+                }
+                let mut s2 = spec.clone();
+                s2.items.insert(pos, (k.clone(), val));
+                out.push(inp(tag, "reject", s2.encode_with_sig(&sig_item), kind));
+            }
+        }
         // a dangling item: one more item inside the list after the last pair (a key without a
         // value), the signature still the one over the record without it
         let rl = rng.range(2, 40) as usize;
@@ -758,13 +779,54 @@ fn decode_obs<S: Sch>(buf: &[u8], with_acc: bool, out: &mut String) {
         let r = Enr::<S::K>::decode(&mut b);
         (r, buf.len() - b.len())
     });
+    // the same bytes decoded by several threads at once (the same record arriving from several
+    // peers): every decode must come out as the sequential one did; on a sample of the inputs
+    let par = {
+        let h = buf.iter().fold(buf.len() as u32, |a, b| a.wrapping_mul(33).wrapping_add(*b as u32));
+        if h % 8 == 0 && buf.len() <= 400 {
+            const T: usize = 8;
+            const ROUNDS: usize = 3;
+            let barrier = std::sync::Barrier::new(T);
+            let oks = std::sync::atomic::AtomicUsize::new(0);
+            let panics = std::sync::atomic::AtomicUsize::new(0);
+            std::thread::scope(|sc| {
+                for _ in 0..T {
+                    sc.spawn(|| {
+                        for _ in 0..ROUNDS {
+                            barrier.wait();
+                            match guard(|| {
+                                let mut b: &[u8] = buf;
+                                Enr::<S::K>::decode(&mut b).is_ok()
+                            }) {
+                                Some(true) => {
+                                    oks.fetch_add(1, std::sync::atomic::Ordering::SeqCst);
+                                }
+                                Some(false) => {}
+                                None => {
+                                    panics.fetch_add(1, std::sync::atomic::Ordering::SeqCst);
+                                }
+                            }
+                        }
+                    });
+                }
+            });
+            format!(
+                " par={}/{}/{}",
+                oks.load(std::sync::atomic::Ordering::SeqCst),
+                panics.load(std::sync::atomic::Ordering::SeqCst),
+                T * ROUNDS
+            )
+        } else {
+            String::new()
+        }
+    };
     match r {
-        None => writeln!(out, "out res=panic").unwrap(),
+        None => writeln!(out, "out res=panic{par}").unwrap(),
         Some((Err(e), _)) => {
-            writeln!(out, "out res=err:{}", crate::cases::rlp_err_str(&e)).unwrap()
+            writeln!(out, "out res=err:{}{par}", crate::cases::rlp_err_str(&e)).unwrap()
         }
         Some((Ok(e), used)) => {
-            writeln!(out, "out res=ok used={used}").unwrap();
+            writeln!(out, "out res=ok used={used}{par}").unwrap();
             out.push_str(&rec_line(&e));
             out.push('\n');
             if with_acc {
